@@ -3,9 +3,8 @@ import Exetera.Spec.CsvLine
 /-!
   C16 — counterexamples, checked by kernel evaluation (`decide`).
 
-  * D25 and NC16a are *repaired* (fixes/D25_*.patch, fixes/NC16a_*.patch); the as-found variant of the batch loop is kept
+  * D25, NC16a and NC16b are *repaired* (fixes/*.patch); the as-found variant of the operation is kept
     in the model so that the defects stay documented by theorems and a regression can be named.
-  * NC16b is an open finding (not repaired: no small safe patch): the model mirrors it.
   * The last group shows that the hypotheses of `Props.C16.concat_eq_spec` are not superfluous: outside them the
     (repaired) model runs out of its buffers.
 -/
@@ -44,23 +43,32 @@ theorem nc16a_repaired :
 
 /-! ### the hypotheses of `concat_eq_spec` are needed -/
 
-/-- NC16b (open finding; also why `concat_eq_spec` needs its room hypothesis): the value buffer (4 bytes) can hold the
-    longest span output (4 bytes), but after the first span (1 byte, below the batch limit 4/2) the second one is
-    written without any check of the room left and runs past the buffer -/
-theorem nc16b_span_longer_than_half_buffer :
+/-- NC16b as found: the value buffer (2·2 = 4 bytes) can hold the longest span output (4 bytes), but after the first
+    span (1 byte, below the batch limit 4/2) the second one is written without any check of the room left -/
+theorem nc16b_asFound_value_overrun :
     (∀ o ∈ concatSpec (44 : Nat) 34 [[97], [98, 99, 100, 101]] [0, 1, 2], o.length ≤ 2 * 2) ∧
-    applySpansConcat .repaired (44 : Nat) 34 [0, 1, 2] (offsets [[97], [98, 99, 100, 101]]) [97, 98, 99, 100, 101] 4 2 2
+    applySpansConcat .asFound (44 : Nat) 34 [0, 1, 2] (offsets [[97], [98, 99, 100, 101]]) [97, 98, 99, 100, 101] 4 2 2
       = .error (.oob "dest_values[copy]") := by decide
+
+/-- the repaired operation grows the buffer (to 2·(2·4 + 3) = 22 bytes) -/
+theorem nc16b_repaired :
+    applySpansConcat .repaired (44 : Nat) 34 [0, 1, 2] (offsets [[97], [98, 99, 100, 101]]) [97, 98, 99, 100, 101] 4 2 2
+      = .ok ⟨[0, 1, 5], [97, 98, 99, 100, 101]⟩ := by decide
+
+/-- the room condition of `Props.C16.batches_eq_spec_room` is needed: the same column in a 4-byte buffer -/
+theorem room_hypothesis_needed :
+    (runBatches .repaired (44 : Nat) 34 [0, 1, 2] (offsets [[97], [98, 99, 100, 101]]) [97, 98, 99, 100, 101] 4 4).map
+      (·.dest) = .error (.oob "dest_values[copy]") := by decide
 
 /-- `src_chunksize = 0`: no room for the leading zero and one offset -/
 theorem srcChunk_hypothesis_needed :
     applySpansConcat .repaired (44 : Nat) 34 [0, 1] (offsets [[97]]) [97] 0 16 16
       = .error (.oob "dest_index[d_index_i]") := by decide
 
-/-- a span boundary beyond the column: `src_index[sp_next]` does not exist -/
+/-- a span boundary beyond the column: `src_index[3]` does not exist (the sizing step already raises) -/
 theorem bound_hypothesis_needed :
     applySpansConcat .repaired (44 : Nat) 34 [0, 3] (offsets [[97]]) [97] 4 16 16
-      = .error (.oob "src_index[sp_next]") := by decide
+      = .error (.oob "src_index[span_ends]") := by decide
 
 /-- the empty line is the one list `parseCsvLine ∘ joinCsv` does not return -/
 theorem roundtrip_exception : parseCsvLine (44 : Nat) 34 (joinCsv 44 34 [[]]) = [] := by decide
